@@ -76,7 +76,8 @@ class EM:
 
     def fee_calls(self, q):
         """events calling the fee-transfer function (anchor: returns TransferResponse)"""
-        return [e for e in q.events if e.target is not None and "TransferResponse" in e.target.locals[0]["ty"]]
+        # (a call whose callee has been spliced into the path is represented by the callee's own events)
+        return [e for e in q.events if e.target is not None and "TransferResponse" in e.target.locals[0]["ty"] and not e.opened]
 
     def stored_position(self, st, q):
         vals = []
